@@ -977,6 +977,35 @@ pub fn analyse(
         return (violation, false, 0, out);
     }
 
+    // "timeout ... yields the corresponding error" read the other way round: a request is reported as timed out only if one of
+    // its requests had in fact been waiting for a response timeout (not when it was swept away by a disconnect, a disable or
+    // a removal, and not when it never started)
+    for u in &users {
+        let Some((done_t, _, false, outcome)) = &u.done else { continue };
+        if !outcome.contains("ResponseTimeout") || matches!(u.kind, UserKind::LinkStatus) {
+            continue;
+        }
+        bump("probe.timeout_outcome_judged");
+        let timeout = timeout_of(u.assoc);
+        let waited = match u.task.and_then(|ti| tasks.get(ti)) {
+            Some(task) => task.steps.iter().any(|st| *done_t + 2 >= st.written + timeout)
+                // (a request lost in flight is not in the list of steps: the task's start is the earliest it can have been written)
+                || (case.latency.0 > 0 && *done_t + 2 >= task.start_t + timeout),
+            None => false,
+        };
+        if !waited {
+            fail(Violation::new(
+                "C16/timeout-reported-without-a-timeout",
+                kind_name(&u.kind).to_string(),
+                format!(
+                    "user request {} ({:?}) to {} failed at {} ms with {} although none of its requests had been waiting for the response timeout of {} ms (task: {:?})",
+                    u.id, u.kind, u.assoc, done_t, outcome, timeout,
+                    u.task.and_then(|ti| tasks.get(ti)).map(|t| (t.start_t, t.steps.iter().map(|s| s.written).collect::<Vec<_>>()))
+                ),
+            ));
+        }
+    }
+
     for (ti, task) in tasks.iter().enumerate() {
         let timeout = timeout_of(task.assoc);
         let user = task.user.and_then(|id| users.iter().find(|u| u.id == id));
